@@ -59,4 +59,20 @@ def run(seed=0):
         for mm, g in log:
             if mm in ('PV', 'Slack') and grp.idx2model(g) is not ss.__dict__[mm]:
                 return n, {'trial': trial, 'observed': 'StaticGen.idx2model(%r) is %r, the device belongs to %s' % (g, grp.idx2model(g), mm)}
+    # generated names are tested against the whole GROUP: a device of another model may already carry the name the generator tries next
+    for taken_by, auto_model in (('Slack', 'PV'), ('PV', 'Slack')):
+        ss = andes.System(default_config=True, no_undill=True)
+        ss.add('Bus', dict(Vn=110.0, idx=100))
+        ss.add(taken_by, dict(bus=100))                                   # group count 1
+        clash = '%s_%d' % (auto_model, 3)
+        ss.add(taken_by, dict(bus=100, idx=clash))                        # group count 2: the other model will try '<auto_model>_3' next
+        n += 1
+        try:
+            got = ss.add(auto_model, dict(bus=100))
+        except Exception as e:      # noqa
+            return n, {'sequence': "add(%r); add(%r, idx=%r); add(%r) without idx" % (taken_by, taken_by, clash, auto_model), 'observed': 'the last addition raised %r' % (e,)}
+        grp = ss.StaticGen
+        if got == clash or grp.idx2model(got) is not ss.__dict__[auto_model] or grp.idx2model(clash) is not ss.__dict__[taken_by] or grp.n != ss.PV.n + ss.Slack.n:
+            return n, {'sequence': "add(%r); add(%r, idx=%r); add(%r) without idx" % (taken_by, taken_by, clash, auto_model),
+                       'observed': 'generated idx %r; group size %d, models hold %d devices' % (got, grp.n, ss.PV.n + ss.Slack.n)}
     return n, None
